@@ -1,6 +1,6 @@
 """O7.12 CompactionManifest::is_trivial_move: a file is only moved down unchanged when nothing in the parent level takes part (C07, C10)."""
 import time
-from z3 import BitVec, BoolVal, And, Or, Not, ULT, ULE
+from z3 import BitVec, Bool, BoolVal, And, Or, Not, ULT, ULE, UGT
 from ..exec import Exec, Inconclusive, Ref, Enum
 from ..ob import Result
 from .. import lib
@@ -52,3 +52,76 @@ def o7_12_confirm(v, out):
     n0, n1 = int(v['replay'][1]), int(v['replay'][2])
     got = out.get('trivial') == 'true'
     return (got != (n0 == 1 and n1 == 0), 'native: %d + %d input files (no grandparents): trivial move = %s' % (n0, n1, got))
+
+
+def o9_9_should_stop_before_key(mir, tier):
+    """CompactionManifest::should_stop_before_key over 1..3 overlapping grandparent files (sorted, disjoint, free sizes < 2^40), the scan
+    pointer anywhere in 0..=k, `is_overlappping` and the accumulated bytes free, a free key.  Reference: the call returns (the scan
+    loop runs at most k times - it runs on the compaction thread; a loop that does not advance leaves every waiter stuck); afterwards
+    the pointer stands on the first file at or after its old position whose largest key is >= the key (k if none); the bytes of the
+    files skipped are accumulated iff an output was already in progress; the answer is "stop" iff the accumulated bytes exceed
+    10 x max_file_size, and then the accumulator restarts at 0."""
+    from ..ob import klt, kle
+    from .version import sorted_disjoint
+    fn = mir.method('CompactionManifest', 'should_stop_before_key')
+    res = Result('O9.9 CompactionManifest::should_stop_before_key', [fn.path], '1..3 grandparent files, scan pointer 0..=k, overlap flag and accumulated bytes free, free key; max_file_size free (< 2^40)')
+    t0 = time.time()
+    cmf = mir.struct_fields('CompactionManifest')
+    for k in (1, 2, 3):
+        for start in range(0, k + 1):
+            w = World(mir)
+            gp = [w.file('grand%d' % i, number=30 + i) for i in range(k)]
+            G = [w.F(f) for f in gp]
+            key = w.key('key'); K = w.K(key)
+            maxout, acc0 = BitVec('max_file_size', 64), BitVec('bytes_so_far', 64)
+            ovl = Bool('output_in_progress')
+            pre = list(w.pre) + sorted_disjoint(G) + [kle(g['sm'], g['lg']) for g in G] + [ULT(g['size'], bv(1 << 40)) for g in G] + [ULT(maxout, bv(1 << 40)), ULT(acc0, bv(1 << 44))]
+            # the pointer never runs ahead of the keys: every file before it ends before the key (keys arrive in ascending order)
+            pre += [klt(G[i]['lg'], K) for i in range(start)]
+            S = base_summaries(mir)
+            ex = Exec(mir, S, loop_bound=k + 2)
+            cm = mir.mk_struct('CompactionManifest', level=bv(1), max_output_file_size_bytes=maxout, maybe_input_version=Enum('None'), input_files=[[], []], overlapping_grandparents=list(gp),
+                               change_manifest={'abstract': True, '__ty': 'VersionChangeManifest'}, base_level_pointers=[bv(0)] * 7, grandparent_index=bv(start), current_overlapping_bytes=acc0, is_overlappping=ovl)
+            def kf(ret, env, pc, ex=ex, k=k, start=start, G=G, K=K, acc0=acc0, ovl=ovl, maxout=maxout):
+                c = ex.deref(env, Ref('$cm')); idx = c[cmf.index('grandparent_index')]; acc = c[cmf.index('current_overlapping_bytes')]; flag = c[cmf.index('is_overlappping')]
+                # reference
+                from z3 import If
+                want_idx = bv(k); skipped = bv(0)
+                for i in reversed(range(start, k)):
+                    ends_before = klt(G[i]['lg'], K)
+                    # first i >= start with not ends_before
+                    want_idx = If(And(*[klt(G[j]['lg'], K) for j in range(start, i)], Not(ends_before)), bv(i), want_idx)
+                run = BoolVal(True)
+                for i in range(start, k):
+                    run = And(run, klt(G[i]['lg'], K))
+                    skipped = skipped + If(run, G[i]['size'], bv(0))
+                total = acc0 + If(ovl, skipped, bv(0))
+                stop = UGT(total, bv(10) * maxout)
+                posts = [('after should_stop_before_key the scan pointer is not on the first grandparent file that ends at or after the key', idx == want_idx),
+                         ('the overlap flag is not set after the first call for an output', flag if not isinstance(flag, bool) else BoolVal(flag)),
+                         ('the answer is not "stop" exactly when the grandparent bytes passed since the output began exceed 10 x max_file_size', ret == stop),
+                         ('the accumulated grandparent bytes are wrong after the call (not restarted after a stop / skipped files not counted)', acc == If(stop, bv(0), total))]
+                res.cases['%d grandparents, pointer %d' % (k, start)] = 1
+                for label, post, m in ex.check_posts(posts, pc):
+                    res.violations.append({'label': label, 'grandparents': k, 'pointer': start, 'replay': ['grandparent_gap'], 'expect_hang': True})
+            ex.top(fn, [Ref('$cm'), Ref('$key')], {'$state': {}, '$cm': cm, '$key': key}, pre, kf)
+            if ex.bound_hits:
+                LAB = 'the grandparent scan of should_stop_before_key does not advance: the compaction thread spins for ever (compact_range, flushes and close wait on it)'
+                res.violations.append({'label': LAB, 'grandparents': k, 'pointer': start, 'where': str(ex.bound_hits[0])[:160], 'replay': ['grandparent_gap'], 'expect_hang': True})
+                ex.record_formula(LAB, [], BoolVal(True)); ex.bound_hits = []
+            res.absorb(ex)
+            for pcx, msg, where in ex.panics:
+                ex.solver.push(); ex.solver.add(*pre); ex.solver.add(*[c for c in pcx if not isinstance(c, bool)]); feas = str(ex.solver.check()) == 'sat'; ex.solver.pop()
+                if feas: res.panic_paths += 1; res.violations.append({'label': 'panic path: ' + msg[:80], 'replay': None, 'confirmed_by': {'reproduced': False, 'detail': 'no native scenario'}})
+    res.wall_s = time.time() - t0
+    if res.violations: res.status = 'violation'
+    return res
+
+
+def o9_9_confirm(v, out):
+    """Native: tables [a..b] and [y..z] at level 2, [d..y] at level 1, [a..e] at level 0; the whole key space is compacted (the first
+    key checked against the grandparents lies beyond the first of them); compact_range must return (20 s watchdog) with all
+    values intact."""
+    if out.get('_timeout'): return (True, 'native: compact_range did not return within the watchdog time')
+    if out.get('_rc') != 0: return (False, 'native run failed: %s' % out.get('_stderr', '')[-300:])
+    return (out.get('compact_range') != 'returned' or out.get('values_ok') != 'true', 'native: files per level before %s; compact_range %s; values intact: %s' % (out.get('files_per_level'), out.get('compact_range'), out.get('values_ok')))
